@@ -142,8 +142,11 @@ pub(crate) mod verif_ss {
         let k = f.inbound as u32;
         assert!(mc[0] == k && mt[0] == (f.batch as u64) * k as u64 && minc == k && mdec == 0);
         assert!(mc[1] == 0 && mc[2] == 0 && mc[3] == 0 && mc[4] == 0);
-        kani::cover!(f.inbound && f.batch > 1);
-        kani::cover!(!f.inbound);
+        let inb = f.inbound;
+        let bt = f.batch;
+        std::mem::forget(f.ctx);
+        kani::cover!(inb && bt > 1);
+        kani::cover!(!inb);
     });
 
     // blocked: only add_count(Block, batch) (mirrored iff inbound); the in-flight count and completions are untouched
@@ -157,8 +160,10 @@ pub(crate) mod verif_ss {
         let k = f.inbound as u32;
         assert!(mc[1] == k && mt[1] == (f.batch as u64) * k as u64 && minc == 0 && mdec == 0);
         assert!(mc[0] == 0 && mc[2] == 0 && mc[3] == 0 && mc[4] == 0);
-        kani::cover!(f.inbound);
-        kani::cover!(!f.inbound);
+        let inb = f.inbound;
+        std::mem::forget(f.ctx);
+        kani::cover!(inb);
+        kani::cover!(!inb);
     });
 
     // completed: Rt(now - start) x1, Complete(batch) x1, decrease_concurrency x1 (mirrored iff inbound);
@@ -178,7 +183,9 @@ pub(crate) mod verif_ss {
         let k = f.inbound as u32;
         assert!(mc[4] == k && mt[4] == dt * k as u64 && mc[2] == k && mt[2] == (f.batch as u64) * k as u64 && mdec == k && minc == 0);
         assert!(mc[0] == 0 && mc[1] == 0 && mc[3] == 0);
-        kani::cover!(f.inbound && dt > 0);
-        kani::cover!(!f.inbound);
+        let inb = f.inbound;
+        std::mem::forget(f.ctx);
+        kani::cover!(inb && dt > 0);
+        kani::cover!(!inb);
     });
 }
